@@ -224,17 +224,29 @@ Definition sys0 : sys := (init_server None, init_blocking).
 Definition out_to (st : sys) (c : Z) : list frame := rev (frames_to c (b_out (snd st))).
 Definition waiting (st : sys) (db : Z) (k : bytes) : list Z := map w_conn (reg_get (b_reg (snd st)) (db, k)).
 
-(** blocked-disconnect: the client of a blocked connection goes away, the next element is
-    delivered into the dead connection and is gone *)
+(** blocked-disconnect (fixed c7e6509): the client of a blocked connection goes away; the server
+    notices (the blocked socket is looked at), unregisters it, and the next element stays in the
+    list instead of being written to a connection nobody reads *)
 Definition w_disconnect : list event :=
-  [EConnect 1; EConnect 2; at0 1 [bs "BLPOP"; bs "q"; bs "0"] (Some 0); EDisconnect 1;
+  [EConnect 1; EConnect 2; at0 1 [bs "BLPOP"; bs "q"; bs "0"] (Some 0); EDisconnect 1; EHangups;
    at0 2 [bs "LPUSH"; bs "q"; bs "v"] None; EWakeups 0].
-(** pipelined-behind-block: two blocking calls processed in one read: the second overwrites the
-    Blocked state, the first's registration times out and its nil answers ... the second,
-    which asked to wait forever and whose registration is left behind *)
-Definition w_behind : list event :=
-  [EConnect 1; at0 1 [bs "BLPOP"; bs "q"; bs "0.3"] (Some 300); at0 1 [bs "BLPOP"; bs "r"; bs "0"] (Some 0);
-   ETimeouts 300].
+(** pipelined-behind-block (fixed 939522b): two blocking calls and a PING arrive in one read: the
+    first blocks the connection, the rest waits and is processed, in order, once it is unblocked *)
+Definition w_behind : list (frame * option Z) :=
+  [(cmd [bs "BLPOP"; bs "q"; bs "0.3"], Some 300); (cmd [bs "BLPOP"; bs "r"; bs "0"], Some 0); (cmd [bs "PING"], None)].
+(** orphan-wakeup-no-renotify (open): the client whose wake-up is under way goes away; the wake-up
+    puts the element back and tells nobody: the next client keeps waiting beside a list that is
+    not empty *)
+Definition w_orphan : list event :=
+  [EConnect 1; EConnect 2; EConnect 3; at0 1 [bs "BLPOP"; bs "q"; bs "0"] (Some 0); at0 2 [bs "BLPOP"; bs "q"; bs "0"] (Some 0);
+   at0 3 [bs "LPUSH"; bs "q"; bs "v"] None; EDisconnect 1; EHangups; EWakeups 0].
+(** script-push-no-notify (fixed e42ab1f): a script that pushes to its declared key wakes the
+    client blocked there.  The script: local r={} r[1]=redis.call("LPUSH",KEYS[1],ARGV[1]) return r[1] *)
+Definition push_script : bytes :=
+  [108; 111; 99; 97; 108; 32; 114; 61; 123; 125; 10; 114; 91; 49; 93; 61; 114; 101; 100; 105; 115; 46; 99; 97; 108; 108; 40; 34; 92; 48; 55; 54; 92; 48; 56; 48; 92; 48; 56; 53; 92; 48; 56; 51; 92; 48; 55; 50; 34; 44; 75; 69; 89; 83; 91; 49; 93; 44; 65; 82; 71; 86; 91; 49; 93; 41; 10; 114; 101; 116; 117; 114; 110; 32; 114; 91; 49; 93].
+Definition w_script : list event :=
+  [EConnect 1; EConnect 2; at0 1 [bs "BLPOP"; bs "q"; bs "0"] (Some 0);
+   at0 2 [bs "EVAL"; push_script; bs "1"; bs "q"; bs "v"] None; EWakeups 0].
 (** blocking-in-exec (fixed d076b83): BLPOP inside MULTI used to register a waiter for connection
     id 0 ahead of the real clients; now it answers nil in its slot and the real client is served *)
 Definition w_exec : list event :=
@@ -246,8 +258,8 @@ Definition w_exec : list event :=
 Definition w_wrongtype : list event :=
   [EConnect 1; EConnect 2; at0 1 [bs "BLPOP"; bs "q"; bs "0"] (Some 0); at0 2 [bs "LPUSH"; bs "q"; bs "v"] None;
    at0 2 [bs "DEL"; bs "q"] None; at0 2 [bs "SET"; bs "q"; bs "x"] None; EWakeups 0].
-(** requeue-at-back: a wake-up that finds its element taken re-registers the client BEHIND the
-    clients that blocked after it *)
+(** requeue-at-back (fixed 8ab686d): a wake-up that finds its element taken registers the client
+    again AHEAD of the clients that blocked after it: the next push serves it *)
 Definition w_requeue : list event :=
   [EConnect 1; EConnect 2; EConnect 3; at0 1 [bs "BLPOP"; bs "q"; bs "0"] (Some 0);
    at0 2 [bs "BLPOP"; bs "q"; bs "0"] (Some 0); at0 3 [bs "LPUSH"; bs "q"; bs "a"] None; at0 3 [bs "LPOP"; bs "q"] None;
@@ -270,9 +282,8 @@ Fixpoint gtrace (st : sys) (P R : list elem) (evs : list event) : sys * list ele
 Fixpoint all_ok_cons (st : sys) (evs : list event) : bool :=
   match evs with [] => true | e :: r => ok_cons st e && all_ok_cons (step st e) r end.
 
-(** reregister-no-recheck: client 1 waits on q and r; its element on q is taken before the
-    wake-up runs while r receives an element; the wake-up registers it again on q and r without
-    looking at r *)
+(** reregister-no-recheck (fixed 8ab686d): client 1 waits on q and r; its element on q is taken
+    before the wake-up runs while r receives an element; the wake-up serves it from r *)
 Definition w_recheck : list event :=
   [EConnect 1; EConnect 2; at0 1 [bs "BLPOP"; bs "q"; bs "r"; bs "0"] (Some 0);
    at0 2 [bs "LPUSH"; bs "q"; bs "a"] None; at0 2 [bs "LPOP"; bs "q"] None; at0 2 [bs "LPUSH"; bs "r"; bs "b"] None;
